@@ -109,7 +109,7 @@ def apply_corruption(rng, w, kind, target_dir, group_dir):
     elif kind == 'traversal-manifest-add-dotdot' and uniq:
         # an extra extern record pointing at existing data, with a path that climbs out of the restore directory
         r = dict(rng.choice(uniq)); r['unique'] = False
-        r['path'] = rng.choice(['/../escape', '/a/../../escape', '/../../' + os.path.basename(os.path.dirname(target_dir)) + '-escape']); recs.append(r)
+        r['path'] = rng.choice(['/../escape', '/a/../../escape', '/../../' + os.path.basename(w.base) + '-escape']); recs.append(r)
     if r is not None:
         store.write_manifest(target_dir, recs); return True
     if kind == 'truncate-data-file':
@@ -176,7 +176,7 @@ def one_storage(ctx, hid, seed, ncor):
             escaped = [p for p in ('/abs-escape', os.path.join(w.base, 'escape')) if os.path.lexists(p)]
             for d, had in around.items():
                 for n in set(os.listdir(d)) - had - {os.path.basename(rdir)}:
-                    if d == w.base or 'escape' in n:
+                    if d == w.base or n == os.path.basename(w.base) + '-escape':
                         escaped.append(os.path.join(d, n))
             escaped = sorted(set(escaped))
             req = rc.model_request(group, names.index(tname) if tname in names else 10**6, contents)
@@ -188,7 +188,7 @@ def one_storage(ctx, hid, seed, ncor):
             for p in escaped:
                 if os.path.isdir(p) and not os.path.islink(p):
                     shutil.rmtree(p, ignore_errors=True)
-                else:
+                elif os.path.lexists(p):
                     os.unlink(p)
     finally:
         w.cleanup()
